@@ -73,7 +73,7 @@ REQUIRED_THEOREMS = ["block_opt_roundtrip", "blocks_tile_body", "rblock_represen
                      "request_tag_tells_transfers_apart", "never_wrong_body_block2_composed_partial",
                      "never_wrong_body_block1_composed_partial", "response_path_params_ok",
                      "block2_unsolicited_dropped", "at_most_once_block2_unsolicited", "at_most_once_block2_non",
-                     "nack_shows_application_token", "nack_token_of_its_transfer"]
+                     "nack_shows_application_token", "nack_token_of_its_transfer", "application_token_left_alone"]
 RULE = ("Layer A: block option values (all single bytes, random 0-3 byte values, boundary NUMs), setup_block_b / coap_write_block_b_opt / "
         "coap_add_data_large_request with the available room around every power of two, slices of bodies whose length is k*2^(szx+4)+{-1,0,1} "
         "for szx 0..6 and random lengths to 64 KiB, every 3-insertion sequence over 5 block numbers plus random longer ones for the received "
@@ -127,7 +127,7 @@ ASSUMPTIONS = ["block numbers < 2^31 at every call of the range functions (coap_
                "at_most_once_block2_unsolicited / at_most_once_block2_non: 2.xx responses carrying a Block2 option coap_get_block_b accepts; `sent` "
                "is NULL exactly when coap_dispatch found no Confirmable request with the response's message id (read in coap_net.c, not modelled); "
                "a response WITH `sent` but without lg_crcv is still handed over (random access) - that is the open finding's class",
-               "nack_token_of_its_transfer: entries with the same STATE_TOKEN_BASE carry the same application token (libcoap numbers state tokens "
+               "nack_shows_application_token / nack_token_of_its_transfer: the abandoned PDU carries a libcoap-generated token (retry count >= 1; a token without one is left alone since fix f4071ae: application_token_left_alone); entries with the same STATE_TOKEN_BASE carry the same application token (libcoap numbers state tokens "
                "from session->tx_token; an lg_xmit and its lg_crcv share both), the application did not choose a token equal to one on the wire; "
                "tokens of at most 8 bytes",
                "release_exactly_once: every deletion site unlinks a list member before coap_block_delete_lg_xmit (checked by reading all 10 sites)",
